@@ -8,13 +8,14 @@ namespace Amshan.C04
 open Amshan.Gen Amshan.P1 Amshan.P1Spec Amshan.Py
 
 /-- pins: the hand-written matcher and CRC model were written for exactly these source texts/values
-    (re-checked against the regenerated constants on every run) -/
+    (re-checked against the regenerated constants on every run; the body of _calculate_crc16 is not pinned by
+    its literals: it is translated and proved equal to the model in Props/C04Gen.lean) -/
 theorem ident_pattern_pin :
     identPatternSrc = "^\\/(?P<MANID>[A-Z][A-Z][a-zA-Z])(?P<BAUDID>\\d)((\\\\\\w)*)(?P<ID>[ -~]{1,16})?(\\r\\n)?$" := by
   decide
 
 theorem constant_pins : crc16Poly = 0xA001 ∧ p1Start = 47 ∧ p1End = 33 ∧ p1Lf = 10 ∧
-    crc16Literals = [0, 1, 0, 8, 1, 1, 40961, 1] ∧ p1IsValidLiterals = [128] ∧
+    p1IsValidLiterals = [128] ∧
     p1ExpectedChecksumLiterals = [1, 1, 16] := by decide
 
 /-- the CRC loop of the source is CRC-16/ARC, for every byte string -/
